@@ -1,6 +1,6 @@
 (* Check/IoCheck.v -- correspondence and oracles for C01-C04 (TextGrid text I/O). *)
 From Coq Require Import String.
-From PraatIO Require Export Check.Common IO.IoModel.
+From PraatIO Require Export Check.Common IO.IoModel IO.PrepSpec.
 Open Scope Z_scope.
 
 (* as the source stands: point marks are un-doubled by the long-form reader *)
@@ -160,18 +160,6 @@ Fixpoint all_quotes_paired (s : text) : bool :=
 
 (* ------------------------------------------------------------------ *)
 (* C04: what saving may change                                          *)
-
-Definition is_blank (e : dentry) : bool := text_eqb (dl e) [].
-Definition dlen (e : dentry) : Z := de e - ds e.
-
-Fixpoint partitionb (lo : Z) (l : list dentry) : option Z :=      (* ascending, gap-free, overlap-free from lo; returns the end *)
-  match l with
-  | [] => Some lo
-  | e :: l' => if (ds e =? lo) && (ds e <? de e) then partitionb (de e) l' else None
-  end.
-
-(* labelled entries (non-empty label) with their labels in order *)
-Definition labelled (l : list dentry) : list dentry := filter (fun e => negb (is_blank e)) l.
 
 Fixpoint subseq_labels (a b : list dentry) : bool :=     (* labels of a form a subsequence of labels of b *)
   match a, b with
